@@ -12,8 +12,10 @@ EXPLANATION = (
     "parameter. R2: ordered (guard, type) sequences of postcard_utils::to_extend_mut::<T> in serialize_entity and "
     "from_buf::<T> in deserialize_entity must agree; the optional field's presence condition must be carried by the "
     "first field on both sides. R3: BufFlavor advances the cursor by exactly the count it hands out, under a "
-    "remaining-length guard, and uses only total accessors.")
-NOT_DECIDED = "round-trip equality decode(encode(e)) == e (arithmetic over index/generation values: <<1, |flag, >>1, +-1)"
+    "remaining-length guard, and uses only total accessors. R4 (bit-width analysis, bitwidth.py): no shift or integer cast of the codec can drop a set bit "
+    "(significant-bit bounds propagated through casts, shifts, or/and); writer and reader agree on the layout constants (index shift, flag mask, generation "
+    "offset, default for an omitted generation).")
+NOT_DECIDED = "round-trip equality as a value identity for every (index, generation) beyond the losslessness and constant agreement decided by R4 (e.g. a reader that swaps index and generation halves with matching constants)"
 TRUSTED_BASE = ["postcard varint (de)serialisation of u32/u64/usize is total and symmetric", "bytes::Buf contract (remaining/chunk/advance)"]
 
 
@@ -171,9 +173,89 @@ def r3_cursor(ctx):
         ctx.bad("try_take_n/shape", site_of(b), "neither advance+from_raw_parts nor a copying accessor found", kind="anchor-missing")
 
 
+def r4_bit_layout(ctx):
+    """Round trip of the packed representation: no operation of the codec drops set bits (bit-width analysis), and the
+    writer's and the reader's layout constants agree (shift amounts, flag mask, generation offset and default)."""
+    import bitwidth
+    F = ctx.F
+    w = ctx.fn("shared::entity_serde::serialize_entity")
+    r = ctx.fn("shared::entity_serde::deserialize_entity")
+    n = 0
+    for body in (w, r):
+        lossy = {(bb, i): (k, msg) for (bb, i, k, msg) in bitwidth.lossy_ops(body)}
+        ordinal = {}
+        for bb, i, st in body.statements():
+            if st["s"] != "assign":
+                continue
+            rv = st["rvalue"]
+            kind = None
+            if rv["rv"] == "bin" and rv["op"] in ("Shl", "ShlUnchecked", "Shr", "ShrUnchecked"):
+                kind = rv["op"].replace("Unchecked", "").lower()
+            elif rv["rv"] == "cast" and rv.get("kind") == "IntToInt" and rv["op"].get("k") != "const":
+                kind = "cast-to-" + rv.get("ty", "?")
+            if kind is None:
+                continue
+            n += 1
+            ordinal[kind] = ordinal.get(kind, 0) + 1
+            key = "%s/lossless/%s#%d" % (short(body.path), kind, ordinal[kind])
+            bad = lossy.get((bb, i))
+            ctx.check(bad is None, key, "%s (%s)" % (body.path, st.get("span", body.span)),
+                      "%s: an entity whose value uses those bits does not survive the round trip" % (bad[1] if bad else ""))
+    if n < 4:
+        ctx.bad("lossless/sites", site_of(w), "only %d shift/cast operations found in the entity codec" % n, kind="anchor-missing")
+
+    def consts_of(body, pred):
+        out = []
+        for bb, i, st in body.statements():
+            if st["s"] == "assign" and st["rvalue"]["rv"] == "bin" and pred(st["rvalue"]):
+                for side in ("a", "b"):
+                    o = st["rvalue"][side]
+                    if o.get("k") == "const" and isinstance(o.get("val"), int):
+                        out.append(o["val"])
+        return out
+    shl = set(consts_of(w, lambda rv: rv["op"] in ("Shl", "ShlUnchecked")))
+    shr = set(consts_of(r, lambda rv: rv["op"] in ("Shr", "ShrUnchecked")))
+    # the reader shifts the generation into the high half by the width of the index: not part of the wire layout
+    shr_wire = shr
+    ctx.check(len(shl) == 1 and shl == shr_wire, "layout/index-shift", site_of(r),
+              "the writer shifts the index left by %s, the reader shifts it right by %s" % (sorted(shl), sorted(shr_wire)), "shift %s" % sorted(shl))
+    masks = set(consts_of(r, lambda rv: rv["op"] == "BitAnd"))
+    if shl:
+        k = next(iter(shl))
+        ctx.check(masks == {(1 << k) - 1}, "layout/flag-mask", site_of(r), "the reader masks the flag with %s, the writer leaves %d low bit(s) for it" % (sorted(masks), k), "mask %s" % sorted(masks))
+    # generation offset: writer subtracts c, reader adds c back
+    sub = set(consts_of(w, lambda rv: rv["op"] in ("Sub", "SubWithOverflow", "SubUnchecked")))
+    add = set()
+    for bb, t in r.calls():
+        if callee_decl(t).endswith("checked_add") or callee_decl(t).endswith("wrapping_add") or callee_decl(t).endswith("saturating_add"):
+            for a in t["args"][1:]:
+                if a.get("k") == "const" and isinstance(a.get("val"), int):
+                    add.add(a["val"])
+    add |= set(consts_of(r, lambda rv: rv["op"] in ("Add", "AddWithOverflow", "AddUnchecked")))
+    ctx.check(len(sub) == 1 and sub == add, "layout/generation-offset", site_of(r), "the writer subtracts %s from the generation, the reader adds %s" % (sorted(sub), sorted(add)), "offset %s" % sorted(sub))
+    # absent generation: writer omits it when generation <= t, reader substitutes the default d; generations are non-zero, so d must be t
+    thr, thr_op = set(), []
+    wtr = tracer(w)
+    for _, _, st in w.statements():
+        if st["s"] == "assign" and st["rvalue"]["rv"] == "bin" and st["rvalue"]["op"] in ("Gt", "Ge", "Lt", "Le", "Eq", "Ne"):
+            rv = st["rvalue"]
+            if any(o.kind == "call" and callee_decl(w.blocks[o.data].term).endswith("Entity::generation") for side in ("a", "b") for o in wtr.operand(rv[side])):
+                thr_op.append(rv["op"])
+                thr |= {rv[side]["val"] for side in ("a", "b") if rv[side].get("k") == "const" and isinstance(rv[side].get("val"), int)}
+    defaults = set()
+    for bb, i, st in r.statements():
+        if st["s"] == "assign" and st["rvalue"]["rv"] == "use" and st["rvalue"]["op"].get("k") == "const" and st["rvalue"]["op"].get("ty") == "u32" and isinstance(st["rvalue"]["op"].get("val"), int):
+            defaults.add(st["rvalue"]["op"]["val"])
+    ok = len(thr) == 1 and len(defaults) == 1 and thr_op in (["Gt"], ["Ne"]) and thr == defaults
+    ctx.check(ok, "layout/absent-generation-default", site_of(r),
+              "the writer omits the generation unless it is `%s %s`, the reader substitutes %s when it is absent" % (thr_op, sorted(thr), sorted(defaults)),
+              "omitted iff generation == %s" % sorted(defaults))
+
+
 RULES = [
     ("C15.R1", "decoding arbitrary bytes never panics (no panic edge reachable from deserialize_entity)", r1_totality, 4, None),
     ("C15.R2", "writer and reader agree on the field sequence and on how the optional field's presence is signalled", r2_symmetry, 4, None),
     ("C15.R3", "the deserialisation flavor advances the cursor by exactly what it hands out, under a length guard", r3_cursor, 5, None),
+    ("C15.R4", "bit layout: no packing operation drops set bits; writer and reader agree on shift, mask, generation offset and default", r4_bit_layout, 8, None),
 ]
 THOROUGH_CONFIGS = ["default", "all-features", "server-only", "client-only"]
